@@ -175,12 +175,14 @@ func subOverflows(a, b Integer) bool {
 //@ ensures [C11.budget.stop] !(execProc && old(intp.execStackDepth) >= 100) && old(depth(intp)) <= maxOperandStackDepth && !isBrace(obj) && old(len(intp.procStart)) == 0 && intp.MaxOps > 0 && old(intp.NumOps) >= intp.MaxOps && old(intp.NumOps) < 9223372036854775807 ==> result == ErrExecutionLimitExceeded && depth(intp) == old(depth(intp))
 //@ ensures [C11.budget.ok] result == nil ==> budgetOK(intp)
 //@ ensures [C11.deferred] !(execProc && old(intp.execStackDepth) >= 100) && old(depth(intp)) <= maxOperandStackDepth && !isBrace(obj) && old(len(intp.procStart)) > 0 ==> result == nil && intp.NumOps == old(intp.NumOps) && depth(intp) == old(depth(intp)) + 1 && len(intp.procStart) == old(len(intp.procStart))
+//@ ensures [C03.exec.literal] eoBenign(intp, obj) && !(execProc && old(intp.execStackDepth) >= 100) && !isType(obj, Operator) && !isType(obj, builtin) && (!isType(obj, Procedure) || !execProc) ==> result == nil && depth(intp) == old(depth(intp)) + 1 && top(intp, 0) == obj && stackFrame(intp, 0) && intp.NumOps == old(intp.NumOps) + 1
 //@ loop 1 invariant objWF0(obj) && topScanWF(intp)
 //@ loop 1 invariant len(intp.errors) == old(len(intp.errors))
 //@ loop 1 invariant len(intp.scanners) == old(len(intp.scanners)) && (forall i :: 0 <= i && i < len(intp.scanners) ==> intp.scanners[i] == old(intp.scanners[i]))
 //@ loop 1 invariant [C11.frame] !(old(execProc) && old(intp.execStackDepth) >= 100) && intp.MaxOps == old(intp.MaxOps) && intp.CheckStart == old(intp.CheckStart)
 //@ loop 1 invariant [C11.frame] (old(execProc) ==> intp.execStackDepth == old(intp.execStackDepth) + 1) && (!old(execProc) ==> intp.execStackDepth == old(intp.execStackDepth))
 //@ loop 1 back-when [C03.tail-deferred] live(val) || !execProc
+//@ loop 1 invariant [C03.exec.literal] (eoFirstTrip(intp, obj, old(obj), execProc, old(execProc)) && stackFrame(intp, 0)) || isType(old(obj), Operator) || (isType(old(obj), Procedure) && old(execProc))
 //@ loop 1 invariant [C11.budget] eoFirstTrip(intp, obj, old(obj), execProc, old(execProc)) || (objWF(obj) && eoBenign(intp, old(obj)) && budgetOK(intp))
 //@ loop 2 invariant topScanWF(intp)
 //@ loop 2 invariant len(intp.errors) == old(len(intp.errors))
@@ -995,3 +997,17 @@ func asBool(o Object) Boolean {
 //@ ensures [C02.string.negative] old(depth(intp)) >= 1 && isInt(old(top(intp, 0))) && asInt(old(top(intp, 0))) < 0 ==> isPSErr(result, eRangecheck) && depth(intp) == old(depth(intp))
 //@ ensures [C02.string.limit] old(depth(intp)) >= 1 && isInt(old(top(intp, 0))) && asInt(old(top(intp, 0))) > 65536 ==> isPSErr(result, eLimitcheck) && depth(intp) == old(depth(intp))
 //@ ensures [C02.string] old(depth(intp)) >= 1 && isInt(old(top(intp, 0))) && 0 <= asInt(old(top(intp, 0))) && asInt(old(top(intp, 0))) <= 65536 ==> result == nil && depth(intp) == old(depth(intp)) && stackFrame(intp, 1) && isType(top(intp, 0), String) && len(top(intp, 0).(String)) == int(asInt(old(top(intp, 0)))) && (forall j :: 0 <= j && j < len(top(intp, 0).(String)) ==> top(intp, 0).(String)[j] == 0)
+
+// if / ifelse select the operand to run by the boolean (PLRM 8.2).  Which
+// object is run is observable when it is a literal: running a literal pushes
+// it (executeOne, C03.exec.literal), so the selected literal -- and not the
+// other one -- ends up on the stack.
+//@ define litRun(intp) = depth(intp) <= maxOperandStackDepth && intp.execStackDepth < 100 && !(intp.MaxOps > 0 && intp.NumOps >= intp.MaxOps)
+//@ func bIfelse
+//@ ensures [C03.ifelse.true] old(depth(intp)) >= 3 && isBool(old(top(intp, 2))) && bool(asBool(old(top(intp, 2)))) && isInt(old(top(intp, 1))) && old(litRun(intp)) ==> result == nil && depth(intp) == old(depth(intp)) - 2 && top(intp, 0) == old(top(intp, 1)) && stackFrame(intp, 3)
+//@ ensures [C03.ifelse.false] old(depth(intp)) >= 3 && isBool(old(top(intp, 2))) && !bool(asBool(old(top(intp, 2)))) && isInt(old(top(intp, 0))) && old(litRun(intp)) ==> result == nil && depth(intp) == old(depth(intp)) - 2 && top(intp, 0) == old(top(intp, 0)) && stackFrame(intp, 3)
+//@ ensures [C03.ifelse.underflow] old(depth(intp)) < 3 ==> isPSErr(result, eStackunderflow) && depth(intp) == old(depth(intp))
+
+//@ func bIf
+//@ ensures [C03.if.true] old(depth(intp)) >= 2 && isBool(old(top(intp, 1))) && bool(asBool(old(top(intp, 1)))) && isInt(old(top(intp, 0))) && old(litRun(intp)) ==> result == nil && depth(intp) == old(depth(intp)) - 1 && top(intp, 0) == old(top(intp, 0)) && stackFrame(intp, 2)
+//@ ensures [C03.if.underflow] old(depth(intp)) < 2 ==> isPSErr(result, eStackunderflow) && depth(intp) == old(depth(intp))
